@@ -41,34 +41,31 @@ theorem kfakeRange_valid (ms : List KMember) (snap : List (String × Nat)) :
     validPlan (kSubsOf ms) (cnt snap) (kCompute "range" ms snap) = true :=
   kCompute_range_valid ms snap
 
-/- Full statement for kfake `assignUniform` (as the property's quantifier reads: arbitrary prior ownership,
-conflicting claims included):
-     ∀ ms snap, validPlan (kSubsOf ms) (cnt snap) (kCompute "uniform" ms snap) = true
-   It is FALSE (`kfakeUniform_conflicting_priors_invalid`). What holds is the statement under `disjointPriors`:
-   no partition is listed twice among the still-valid prior targets of the active members. -/
-
-/-- kfake `assignUniform` is valid whenever the still-valid prior targets are pairwise disjoint
-(any assignor name other than "range" dispatches to it). -/
-theorem kfakeUniform_valid_partial (assignor : String) (hne : (assignor == "range") = false)
-    (ms : List KMember) (snap : List (String × Nat)) (hd : disjointPriors ms snap = true) :
+/-- kfake `assignUniform` (any assignor name other than "range" dispatches to it), as repaired in /repo
+31831e3: valid for EVERY input — arbitrary prior targets, conflicting claims included (step 1 keeps a
+still-valid prior partition only for the first member, in member order, that lists it). -/
+theorem kfakeUniform_valid (assignor : String) (hne : (assignor == "range") = false)
+    (ms : List KMember) (snap : List (String × Nat)) :
     validPlan (kSubsOf ms) (cnt snap) (kCompute assignor ms snap) = true :=
-  kCompute_uniform_valid assignor hne ms snap hd
+  kCompute_uniform_valid assignor hne ms snap
 
-/-- the hypothesis is satisfiable by a non-trivial state: two members keep disjoint prior targets, one
-sheds its excess, a third member receives it. -/
-example : disjointPriors [{ id := "a", subs := ["t"], target := [("t", [0, 1, 2])] }, { id := "b", subs := ["t"], target := [("t", [3])] },
-    { id := "c", subs := ["t"] }] [("t", 4)] = true
-  ∧ kCompute "uniform" [{ id := "a", subs := ["t"], target := [("t", [0, 1, 2])] }, { id := "b", subs := ["t"], target := [("t", [3])] },
+/-- non-trivial instance: two members keep disjoint prior targets, one sheds its excess, a third receives it. -/
+example : kCompute "uniform" [{ id := "a", subs := ["t"], target := [("t", [0, 1, 2])] }, { id := "b", subs := ["t"], target := [("t", [3])] },
     { id := "c", subs := ["t"] }] [("t", 4)] = [("a", "t", 0), ("a", "t", 1), ("b", "t", 3), ("c", "t", 2)] := by decide
 
-/-- Negation of the full statement: with two members whose prior targets both list partition 0 of a
-one-partition topic, `assignUniform` keeps it for both. -/
-theorem kfakeUniform_conflicting_priors_invalid :
-    ¬ ∀ (ms : List KMember) (snap : List (String × Nat)), validPlan (kSubsOf ms) (cnt snap) (kCompute "uniform" ms snap) = true := by
-  intro h
-  have := h [{ id := "m0", subs := ["t"], target := [("t", [0])] }, { id := "m1", subs := ["t"], target := [("t", [0])] }] [("t", 1)]
-  revert this
-  decide
+/-- regression (finding kfake-uniform-conflicting-priors, fixed in 31831e3): two members whose prior targets
+both list partition 0 of a one-partition topic. The old code kept it for both; now only the first keeps it. -/
+example :
+    let ms : List KMember := [{ id := "m0", subs := ["t"], target := [("t", [0])] }, { id := "m1", subs := ["t"], target := [("t", [0])] }]
+    disjointPriors ms [("t", 1)] = false
+    ∧ kCompute "uniform" ms [("t", 1)] = [("m0", "t", 0)]
+    ∧ validPlan (kSubsOf ms) (cnt [("t", 1)]) (kCompute "uniform" ms [("t", 1)]) = true := by decide
+
+/-- regression, the input reached over the wire by harness/cmd/c25/reachprobe (static member away, another
+joins, static member returns, a third joins): both A2 and B list 0..3. -/
+example :
+    kCompute "uniform" [{ id := "A2", subs := ["t"], target := [("t", [0, 1, 2, 3])] }, { id := "B", subs := ["t"], target := [("t", [0, 1, 2, 3])] },
+      { id := "C", subs := ["t"] }] [("t", 4)] = [("A2", "t", 0), ("A2", "t", 1), ("B", "t", 2), ("C", "t", 3)] := by decide
 
 /-- AdjustCooperative never assigns anything the sticky plan did not contain. -/
 theorem cooperative_adjust_only_removes (ms : List Member) (plan : List Triple) : (adjust ms plan).Sublist plan :=
